@@ -13,7 +13,7 @@ ASSUME = ["stopping decided exactly on the graph (finals absorbing, absorbing st
 
 def _vacuity(tot):
     if tot["outcomes"].get("nosol", 0) < 10 or tot["nontrivial"] < 10:
-        raise par.HarnessError("C06 vacuity guard: %r" % tot["outcomes"])
+        raise par.GuardError("C06 vacuity guard: %r" % tot["outcomes"])
 
 
 KF = {"KF-C06-2": "with pruning on, solve() never terminates on a stopping game in which a Player-1 action is worse than the best one by less than the "
